@@ -11,7 +11,7 @@ from .base import gen_program, viol, shrink_program
 ID = "C15"
 LEVEL = "exploration"
 TIERS = {"quick": {"cases": 2400, "wall": 100, "min_nontrivial": 1200},
-         "thorough": {"cases": 60000, "wall": 1800, "min_nontrivial": 30000}}
+         "thorough": {"cases": 60000, "wall": 1800, "min_nontrivial": 12000}}
 RULE = ("generator -> valid program P; S = random subset of its whole simple statements (assignments, calls, I/O, "
         "allocate, ... taken from the generator's statement kinds, unlabelled, so that P minus S is valid); every "
         "statement of S is hidden behind the conditional sentinel: free form '!$ ' (any indentation), continued over "
